@@ -18,6 +18,7 @@ Not decided: overlay/merge iterator equals the model map (value-level)."""
 from rules.core import pat, k4
 
 CRATES = ["aranya_runtime"]
+THOROUGH_CONFIGS = ["lowmem"]   # thorough tier: the same rules on the low-mem-usage build
 S = "aranya_runtime::client::session::Session::"
 
 FORBIDDEN = {"write", "write_facts", "commit_heads", "new_storage", "remove_storage", "new_merge_perspective"}
